@@ -11,6 +11,11 @@ from .report import Report
 
 
 def run_variant(args):
+    from . import fatstack
+    return fatstack.run(lambda: _run_variant(args))
+
+
+def _run_variant(args):
     kind, prop, name, rel, old, new, expect, root = args
     t0 = time.time()
     try:
@@ -74,12 +79,13 @@ def variants(prop=None, root=None):
     return out
 
 
-def run(prop=None, root=None, jobs=None):
+def run(prop=None, root=None, jobs=None, only=None):
     vs = variants(prop, root)
-    # C02/C08 variants are dominated by the abstract interpreter, which does not scale over processes in this sandbox (see DESIGN.md section 7)
-    jobs = jobs or int(os.environ.get('PMSTATIC_BATTERY_JOBS', '1' if prop in ('C02', 'C08', None) else '4'))
-    if jobs > 1 and len(vs) > 3:
-        with multiprocessing.get_context('fork').Pool(jobs) as pool:
+    if only:
+        vs = [v for v in vs if only.lower() in v[2].lower()]
+    jobs = jobs or int(os.environ.get('PMSTATIC_BATTERY_JOBS', '12'))
+    if jobs > 1 and len(vs) > 1:
+        with multiprocessing.get_context('fork').Pool(min(jobs, len(vs))) as pool:
             res = pool.map(run_variant, vs, chunksize=1)
     else:
         res = [run_variant(v) for v in vs]
@@ -89,7 +95,7 @@ def run(prop=None, root=None, jobs=None):
 def main(argv):
     prop = argv[0].upper() if argv else None
     only = argv[1] if len(argv) > 1 else None
-    res = run(prop, only)
+    res = run(prop, only=only)
     bad = 0
     for (kind, p, name, status, detail, dt) in res:
         flag = '' if status in ('ok', 'skipped') else '  <<<<'
